@@ -14,10 +14,16 @@ Two == {I("Merge", "Merge", 2), I("Merge", "MergeWith", 2), I("Merge", "MergeWit
         I("BufferWhen", "BufferWhen", 2), I("SampleWhen", "SampleWhen", 2), I("ThrottleWhen", "ThrottleWhen", 2), I("WindowWhen", "WindowWhen", 2)}
 Three == {I("Merge", "Merge", 3), I("Merge", "MergeWith2", 3), I("CombineLatest", "CombineLatest3", 3), I("Zip", "Zip3", 3), I("Race", "Race", 3)}
 One == {I("GroupBy", "GroupBy", 1), I("GroupBy", "GroupByI", 1), I("GroupByLeave", "GroupBy", 1)}
-InstSet == CASE InstSetName = "two" -> Two [] InstSetName = "three" -> Three [] InstSetName = "one" -> One [] InstSetName = "ticks" -> {I("ThrottleWhen", "ThrottleWhen", 2), I("SampleWhen", "SampleWhen", 2), I("BufferWhen", "BufferWhen", 2), I("WindowWhen", "WindowWhen", 2)} [] InstSetName = "zip3" -> {I("Zip", "Zip3", 3), I("Zip", "ZipWith2", 3)} [] OTHER -> Two \cup Three
+InstSet == CASE InstSetName = "two" -> Two [] InstSetName = "three" -> Three [] InstSetName = "one" -> One []
+             \* the higher arities of the typed families (each arity is its own copy of the code)
+             InstSetName = "high" -> {I("Merge", "Merge", 4), I("Merge", "MergeWith3", 4), I("Merge", "MergeWith4", 5), I("Merge", "MergeWith5", 6),
+                                      I("CombineLatest", "CombineLatest4", 4), I("CombineLatest", "CombineLatest5", 5),
+                                      I("CombineLatest", "CombineLatestWith2", 3), I("CombineLatest", "CombineLatestWith3", 4), I("CombineLatest", "CombineLatestWith4", 5),
+                                      I("Zip", "Zip4", 4), I("Zip", "Zip5", 5), I("Zip", "Zip6", 6),
+                                      I("Zip", "ZipWith3", 4), I("Zip", "ZipWith4", 5), I("Zip", "ZipWith5", 6), I("Race", "Race", 4)} [] InstSetName = "ticks" -> {I("ThrottleWhen", "ThrottleWhen", 2), I("SampleWhen", "SampleWhen", 2), I("BufferWhen", "BufferWhen", 2), I("WindowWhen", "WindowWhen", 2)} [] InstSetName = "zip3" -> {I("Zip", "Zip3", 3), I("Zip", "ZipWith2", 3)} [] OTHER -> Two \cup Three
 
 NoSync == {[s |-> 0, k |-> "C"]}
-SyncSet == IF SyncSetName = "ends" THEN {[s |-> x, k |-> kk] : x \in 1..3, kk \in {"C", "E", "U"}} ELSE NoSync
+SyncSet == IF SyncSetName = "ends" THEN {[s |-> x, k |-> kk] : x \in 1..6, kk \in {"C", "E", "U"}} ELSE NoSync
 
 TailSet == IF TailSetName = "cuts" THEN {"Take1", "Throw1"} ELSE {"none"}
 
